@@ -32,7 +32,11 @@ def classes():
         @npdataclass
         class Narrow:
             b: np.ndarray
-        _CLS.update(One=One, Two=Two, Three=Three, Narrow=Narrow)
+        @npdataclass
+        class Swapped:
+            m: np.ndarray
+            a: np.ndarray
+        _CLS.update(One=One, Two=Two, Three=Three, Narrow=Narrow, Swapped=Swapped)
     return _CLS
 
 
@@ -90,6 +94,8 @@ def run(c, p):
         return obj == other
     if op == "astype":
         return fields_obs(obj.astype(C["Narrow"]), ["b"])
+    if op == "astype2":
+        return fields_obs(obj.astype(C["Swapped"]), ["m", "a"])
     raise ValueError(op)
 
 
@@ -111,6 +117,8 @@ def expected(c, p):
         return tuple(np.concatenate([pt[f] for pt in parts]) for f in names)
     if op == "astype":
         return (fs["b"],)
+    if op == "astype2":
+        return (fs["m"], fs["a"])
 
 
 def gen(E, p):
@@ -236,6 +244,7 @@ def jobs(tier, seed):
     out.append(dict(cls="Three", op="badlen", n=2))
     out.append(dict(cls="Two", op="astype", n=n))
     out.append(dict(cls="Three", op="astype", n=n))
+    out.append(dict(cls="Three", op="astype2", n=n))
     js = [dict(h="C18.table", p=p) for p in out]
     js += [dict(h="C18.varlen", p=dict(k=2, n=2, w=3)), dict(h="C18.varlen", p=dict(k=3, n=2 if q else 3, w=2 if q else 3))]
     return js
